@@ -1,5 +1,5 @@
 (* C09 - routers return the declared operation whose template matches the URL. *)
-From KV Require Import Model.Base Model.Lookup Model.ParamCodec Model.Router Model.Server Proofs.C09Proofs Proofs.ServerProofs.
+From KV Require Import Model.Base Model.Lookup Model.ParamCodec Model.Router Model.Server Spec.ServerSpec Proofs.C09Proofs Proofs.ServerProofs Proofs.ServerSpecProofs.
 Local Open Scope list_scope.
 
 (* legacy router: whatever node Match returns is reached from the root through a token sequence
@@ -102,6 +102,18 @@ Theorem C09_legacy_no_server_not_found : forall servers root method url lit know
   servers <> [] -> (forall s, In s servers -> forall ps rest, match_raw_url s url <> MYes ps rest) ->
   legacy_find_srv servers root method url lit known = (RNotFound, None).
 Proof. exact legacy_find_srv_no_server. Qed.
+(* the two boolean functions the judge evaluates on the Go observations mean what the theorems above
+   speak of: [reproduces] implies the decomposition of C09_server_match_sound, [under_server] holds
+   exactly for the URLs that are the pattern filled with non-empty slash-free values and a path *)
+Theorem C09_spec_reproduces_means_fills : forall pat url vals rest, reproduces pat url vals rest = true ->
+  exists names consumed rest0, fills pat names vals consumed /\ url = (consumed ++ rest0)%string /\
+                               rest = slashify rest0 /\ String.prefix "/" rest = true.
+Proof. exact reproduces_spec. Qed.
+Theorem C09_spec_under_server_iff : forall pat url, under_server pat url = true <->
+  exists names vals consumed rest0, fills pat names vals consumed /\ url = (consumed ++ rest0)%string /\
+                                    boundary rest0 = true /\ Forall good_val vals.
+Proof. exact under_server_spec. Qed.
+Print Assumptions C09_spec_under_server_iff.
 Print Assumptions C09_server_match_sound.
 Print Assumptions C09_server_match_complete.
 Print Assumptions C09_legacy_with_servers_sound.
